@@ -93,11 +93,7 @@ def run(ctx):
     # ---- E3
     n = ctx.pick(60, 1200)
     scs = gen_scenarios(ctx, n)
-    sp = os.path.join(ctx.work, 'scen.json')
-    tp = os.path.join(ctx.work, 'trace.ndjson')
-    vlib.write_json(sp, scs)
-    ctx.run([drv, 'run', sp, tp], timeout=3000)
-    segs = vlib.split_segments(vlib.read_ndjson(tp))
+    segs = vlib.run_scenarios(ctx, drv, scs, 'c13', what='the stack (ICMP echo path)')
     if len(segs) != n:
         raise vlib.Inconclusive('driver produced %d segments for %d scenarios' % (len(segs), n))
     nreq = sum(1 for s in segs for e in s if e['ev'] == 'req')
